@@ -97,6 +97,24 @@ def _indexing(ctx, cfg):
         j = size - 1 - c
         tot = tot + z3.ZeroExt(1, z3.If(z3.Extract(j, j, k) == 1, z3.BitVecVal(1 << j, size), z3.BitVecVal(0, size)))
     ctx.z3("lemma/sum_c bit_(size-1-c)(k) * 2^(size-1-c) == k (symbolic k)[size=%d]" % size, [], tot == z3.ZeroExt(1, k))
+    # the index function alone has no size limit: rows of up to 50 sites (indices far above 2**24, exact in double
+    # precision), and the same rows under a caller's autocast context
+    if size in (9, 10, 12):
+        wide = size + 38 if size == 12 else size + 16
+        rngw = np.random.default_rng(7 + size)
+        bits = rngw.integers(0, 2, size=(64, wide))
+        bits[0, :] = 1
+        bits[1, :] = 0
+        bits[2, :] = 1
+        bits[2, 0] = 0
+        wantw = [int("".join(str(int(b)) for b in r), 2) for r in bits]
+        gotw = _convert_basis_element_to_index(torch.tensor(bits, dtype=torch.double))
+        ctx.holds("_convert_basis_element_to_index/exact for rows of %d sites (indices above 2**24)" % wide, [int(x) for x in gotw.tolist()] == wantw, str(gotw.tolist()[:3]))
+        with torch.autocast("cpu", dtype=torch.bfloat16):
+            ga = _convert_basis_element_to_index(space[torch.as_tensor(ks[-512:])])
+            gs = _convert_basis_element_to_index(space[int(ks[-1])])
+        ctx.holds("_convert_basis_element_to_index/recovers k from row k inside a caller's autocast context[size=%d]" % size,
+                  [int(x) for x in ga.tolist()] == [int(x) for x in ks[-512:]] and int(gs) == int(ks[-1]), str(ga.tolist()[-3:]))
     if size <= 10:
         # history: a caller may modify the tensor it was given (e.g. sample(..., initial_state=space, overwrite=True));
         # the next request, from this or any other model, still gets the expansion
